@@ -59,8 +59,39 @@ func TestC16_Monitor(t *testing.T) {
 			w.checkQuiet()
 		}
 		// monitor and witness, back to back
-		m := w.attachMonitor(p)
+		initBlocked := w.rootReady && handlerMode != "blocked" && rapid.IntRange(0, 3).Draw(t, "initBlocked") == 0
+		m := w.attachMonitorOpt(p, initBlocked)
+		var initAtAttach []string
+		if initBlocked {
+			// OnInitialize is entered (listing taken) and hangs there; only then does the witness start
+			deadline := time.Now().Add(wedgeBoundNow())
+			for atomic.LoadInt32(&m.cb.inflight) == 0 {
+				if time.Now().After(deadline) {
+					w.fail("WEDGE: OnInitialize of a monitor on a ready publisher was never called")
+				}
+				time.Sleep(20 * time.Microsecond)
+			}
+			initAtAttach = w.expected(p)
+			w.h("OnInitialize of the monitor blocks")
+		}
 		wit := w.attach(p, "sub", 0)
+		if initBlocked {
+			// events - including same-version Deletes/Creates synthesised by a Refilter of the publisher -
+			// queue up behind the running OnInitialize: each gets its callback afterwards
+			for i := 0; i < rapid.IntRange(0, 8).Draw(t, "duringInit"); i++ {
+				put()
+			}
+			if pubKind == "fclone" {
+				for i := 0; i < rapid.IntRange(0, 2).Draw(t, "refiltersDuringInit"); i++ {
+					w.refilter(p, rapid.SampledFrom([]int{0, 1, 2, 3, 5, 7}).Draw(t, "pfi"))
+					w.checkQuiet()
+				}
+			}
+			w.checkQuiet()
+			m.cb.unblock()
+			w.h("OnInitialize released")
+			w.barrierRetry()
+		}
 		switch handlerMode {
 		case "micro":
 			atomic.StoreInt64(&m.cb.delayNs, int64(rapid.IntRange(1, 30).Draw(t, "us"))*1000)
@@ -111,6 +142,9 @@ func TestC16_Monitor(t *testing.T) {
 		}
 		w.checkQuiet()
 		initWant = w.expected(p)
+		if initBlocked {
+			initWant = initAtAttach
+		}
 		if !closed {
 			// init must have happened by now (the barrier passed through the monitor's handler)
 			recs, ninit, initAt, _, _ := m.cb.snapshot()
@@ -135,6 +169,9 @@ func TestC16_Monitor(t *testing.T) {
 			closeAfter = rapid.IntRange(0, total).Draw(t, "closeAfter")
 		}
 		witBase := wit.eventCount()
+		if initBlocked {
+			witBase = 0 // the witness was created after the monitor's listing: all its events count
+		}
 		witAtClose := -1
 		overflow := false
 		sinceBlock := 0
@@ -285,7 +322,7 @@ func TestC16_Monitor(t *testing.T) {
 		}
 		statCase("C16", hashString(strings.Join(w.hist, ";")), nt, func() interface{} {
 			return map[string]interface{}{"close": closeAt, "handler": handlerMode, "publisher": pubKind, "events": total, "callbacks": len(cbs), "history_head": hist}
-		}, "close_"+closeAt, "handler_"+handlerMode, "publisher_"+pubKind, fmt.Sprintf("overflow=%v", overflow))
+		}, "close_"+closeAt, "handler_"+handlerMode, "publisher_"+pubKind, fmt.Sprintf("overflow=%v", overflow), fmt.Sprintf("events_queued_during_OnInitialize=%v", initBlocked))
 	})
 }
 
